@@ -539,6 +539,8 @@ package server
 //@ spec func ownsHold(m, cur, cmdLockId, cmdFlag) = cur != nil && atsection(cur.locked) > 0 && ((atsection(cur.command.LockId) == cmdLockId && atsection(cur.ackCount) == 0xff) || (cmdFlag&0x01 != 0 && cur == atsection(m.currentLock)))
 
 //@ func (*LockDB).UnLock
+//@   at call LockManager.RemoveLock assert C11.unlock.settled,C03.unlock.settled: arg1.ackCount == 0xff
+//@   at call PushUnLockAof assert C11.unlock.settled-partial,C03.unlock.settled-partial: arg2.ackCount == 0xff
 //@   at call PriorityMutex.Unlock assert C15.value.frame: implies(calls(ProcessLockData) == 0 && calls(ProcessAckLockData) == 0 && calls(ProcessRecoverLockData) == 0 && calls(RemoveLockManager) == 0 && calls(wakeUpWaitLocks) == 0 && calls(DoAckLock) == 0 && calls(doExpried) == 0 && calls(doTimeOut) == 0 && calls(cancelWaitLock) == 0, lockManager.currentData == atsection(lockManager.currentData))
 //@   at call ProcessLockResultCommand assert C15.reply.before: implies(calls(ProcessLockData) >= 1, arg5 == ghost.valueBefore[ref(lockManager)])
 //@   requires self != nil && command != nil && !isnil(serverProtocol)
